@@ -29,13 +29,22 @@ def plan(tier):
 
 
 def sensor_orient(rng, n):
-    kind = str(rng.choice(["identity", "negid", "static", "translate", "rotating", "id_then_rot"]))
+    kind = str(rng.choice(["identity", "negid", "static", "translate", "rotating", "id_then_rot", "sign_symmetric"]))
     if kind == "identity":
         q = np.tile([0.0, 0, 0, 1], (n, 1))
     elif kind == "negid":
         q = np.tile([0.0, 0, 0, -1], (n, 1))
     elif kind in ("static", "translate"):
         q = np.tile(objs.rand_rot(rng, 1, "uniform"), (n, 1))
+    elif kind == "sign_symmetric":
+        # a sweep through +-angle about one axis: the quaternions of the path differ only in component signs
+        ax = rng.normal(size=3)
+        ax /= np.linalg.norm(ax)
+        if rng.random() < 0.5:
+            ax = np.eye(3)[int(rng.integers(0, 3))]
+        ang = np.deg2rad(rng.uniform(10, 170))
+        sg = np.array([(-1) ** i for i in range(n)]) * rng.choice([-1, 1])
+        q = R.from_rotvec(np.outer(sg * ang, ax)).as_quat()
     elif kind == "rotating":
         q = np.array(objs.rand_rot(rng, n, "uniform"))
     else:
